@@ -40,9 +40,14 @@ XLIB_RULES = {
 }
 
 
+RAW_RULES = {"hexint": ("pattern:\n- call:\n  - 0x8\n", [])}     # an unquoted hexadecimal scalar (YAML: the integer 8)
+
+
 def rule_yaml(r):
     if r["id"] in XLIB_RULES:
         return XLIB_RULES[r["id"]]
+    if r["id"] in RAW_RULES:
+        return RAW_RULES[r["id"]]
     cfg = {}
     c = r["cfg"]
     if c["mfm"] != "-":
